@@ -11,6 +11,8 @@ Lemma gen_fc_binary : fc_Binary = code_B. Proof. reflexivity. Qed.
 Lemma gen_fc_boolean : fc_Boolean = code_BOOL. Proof. reflexivity. Qed.
 Lemma gen_fc_string : fc_String = code_A. Proof. reflexivity. Qed.
 Lemma gen_fc_jis8 : fc_JIS8 = code_J. Proof. reflexivity. Qed.
+(* the model's text codecs are latin-1 (identity below 256) and the generated JIS-8 tables *)
+Lemma gen_codings : coding_String = "latin-1"%string /\ coding_JIS8 = "jis_8"%string. Proof. split; reflexivity. Qed.
 
 Definition e5w (k : num_kind) : e5int :=
   match k with U1 | I1 => W1 | U2 | I2 => W2 | U4 | I4 | F4 => W4 | U8 | I8 | F8 => W8 end.
